@@ -18,7 +18,7 @@ def plan(ctx):
             # every set of one or two erasures; the larger ones (each costs a decode plus one reconstruct per erased index) sampled
             sets = list(esets(n, 1, min(m, 2)))
             if m > 2:
-                sets += rnd.sample(list(esets(n, m, m)), 2)
+                sets += rnd.sample(list(esets(n, m, m)), min(2, len(list(esets(n, m, m)))))
         for i, ch in enumerate(chunks(sets, 1)):
             obs.append(be_l1_ob(be, k, m, m, ch, w=1, tag="isal", idx=i, timeout=1200))
     # m >= 3: a lost data fragment together with two or more lost parities (the synthesised parity rows of get_inverse_rows depend on each other's bookkeeping)
